@@ -536,3 +536,95 @@ def sections_unit(u: Unit):
 from . import C02 as _C02  # noqa: E402
 unit("C12", "readout.file")(_C02.readout_ctor_file)
 STANDIN = {r"readout\.file": _C02.FILE_REPLAY}
+
+
+# ---- calibration algorithm settings: every value handed to Algorithm(...) is the value its property returns -------------------------------
+ALGO_REPLAY = lambda w: {"code": """
+import math
+from pyxel.calibration import Algorithm
+VIOLATED, DETAIL = False, 'every accepted algorithm setting reads back as given (zero, False and empty values included)'
+given = dict(type='nlopt', generations=1, population_size=1, variant=1, variant_adptv=1, ftol=0.0, xtol=0.0, memory=False, cr=0.0, eta_c=0.0, m=0.0, param_m=0.0, param_s=0,
+             crossover='single', mutation='uniform', selection='truncated', nlopt_solver='cobyla', maxtime=0, maxeval=0, xtol_rel=0.0, xtol_abs=0.0, ftol_rel=0.0, ftol_abs=0.0,
+             stopval=0.0, replacement='worst', nlopt_selection='random')
+for variant in (given, dict(given, stopval=-1.5, maxtime=7, memory=True, ftol=1e-3, cr=1.0, m=1.0, generations=100000, population_size=100000, variant=18, variant_adptv=2), dict(given, stopval=1e-3)):
+    a = Algorithm(**variant)
+    for k, v in variant.items():
+        got = getattr(a, k)
+        got = getattr(got, 'value', got) if k == 'type' else got
+        if got != v or type(got) is not type(v):
+            VIOLATED, DETAIL = True, f'Algorithm({k}={v!r}).{k} == {got!r}'; break
+    if VIOLATED: break
+if not VIOLATED and Algorithm().stopval != -math.inf:
+    VIOLATED, DETAIL = True, f'no stopval given: {Algorithm().stopval!r} (documented default: -inf)'
+""", "expect": "Algorithm(...) keeps every setting it accepts"}
+
+
+@unit("C12", "ctor[Algorithm]")
+def algorithm_ctor(u: Unit):
+    """Algorithm.__init__ with EVERY parameter symbolic (integers, reals, booleans; texts of the documented literals; the optional stop
+    value given or absent): whenever the constructor accepts, each property returns exactly the value given for it — in particular 0,
+    0.0 and False — generations / population_size within 1..100000, variant 1..18, variant_adptv 1..2, cr and m in [0, 1]; an absent
+    stop value is minus infinity."""
+    AQ = "pyxel/calibration/algorithm.py"
+    fi = u.fn(f"{AQ}::Algorithm.__init__")
+    ci = u.cls(f"{AQ}::Algorithm")
+    ints = ["generations", "population_size", "variant", "variant_adptv", "maxtime", "maxeval", "param_s"]
+    reals = ["ftol", "xtol", "cr", "eta_c", "m", "param_m", "xtol_rel", "xtol_abs", "ftol_rel", "ftol_abs"]
+    texts = {"crossover": "single", "mutation": "uniform", "selection": "truncated", "nlopt_solver": "cobyla", "replacement": "worst", "nlopt_selection": "random"}
+    for stop in ("given", "absent"):
+        cfg = Cfg("real")
+
+        def setup(ex, stop=stop):
+            kw = {k: VInt(z3.Int("given_" + k)) for k in ints}
+            kw.update({k: VFloat(z3.Real("given_" + k)) for k in reals})
+            kw.update({k: VStr(v) for k, v in texts.items()})
+            kw["memory"] = VBool(z3.Bool("given_memory"))
+            kw["type"] = VStr("nlopt")
+            kw["local_optimizer"] = VOpaque("xr", None, {"label": "local_optimizer"})
+            kw["stopval"] = VFloat(z3.Real("given_stopval")) if stop == "given" else NONE
+            ex.hold = kw
+            me = ex.st.alloc(HObj(ci, {}))
+            ex.self_ref = me
+            return [me], dict(kw)
+        ps = u.paths(fi, setup, cfg, label=f"Algorithm.__init__[stopval {stop}]")
+        for p in ps:
+            if p.kind != "return":
+                rng = lambda k, lo, hi: z3.Or(z3.Int("given_" + k) < lo, z3.Int("given_" + k) > hi)
+                bad = z3.Or(rng("generations", 1, 100000), rng("population_size", 1, 100000), rng("variant", 1, 18), rng("variant_adptv", 1, 2),
+                            z3.Real("given_cr") < 0, z3.Real("given_cr") > 1, z3.Real("given_m") < 0, z3.Real("given_m") > 1)
+                u.oblige(p, f"ctor.Algorithm.refuses_only_out_of_range[{stop}]", z3.And(zb(p.exc_name() == "ValueError"), bad), {"exc": p.exc_name()}, ALGO_REPLAY)
+                continue
+            goals, wit = [], {}
+            for k in ints + reals + ["memory"] + list(texts) + ["local_optimizer"] + (["stopval"] if stop == "given" else []):
+                try:
+                    got = p.ex.getattr(p.ex.self_ref, k, Frame(None, ci.module))
+                except PyExc:
+                    goals.append(z3.BoolVal(False))
+                    continue
+                want = p.ex.hold[k]
+                if isinstance(want, VOpaque):
+                    goals.append(zb(got is want))
+                elif isinstance(want, VStr):
+                    goals.append(zb(isinstance(got, VStr) and got.v == want.v))
+                elif type(got) is not type(want):
+                    goals.append(z3.BoolVal(False))
+                    wit[k] = type(got).__name__
+                else:
+                    import math as _m
+                    if isinstance(want, VBool):
+                        goals.append(z_bool(got.v) == z_bool(want.v))
+                    elif is_conc(got.v) and is_conc(want.v):
+                        goals.append(zb(got.v == want.v))
+                    elif is_conc(got.v) and isinstance(got.v, float) and not _m.isfinite(got.v):
+                        goals.append(z3.BoolVal(False))          # an infinity / NaN stored for a finite given value
+                        wit[k] = repr(got.v)
+                    else:
+                        goals.append(got.v == want.v)
+            u.oblige(p, f"ctor.Algorithm.keeps_every_setting[{stop}]", z3.And(*goals), dict(wit, stopval=z3.Real("given_stopval")), ALGO_REPLAY)
+            inr = lambda k, lo, hi: z3.And(z3.Int("given_" + k) >= lo, z3.Int("given_" + k) <= hi)
+            u.oblige(p, f"ctor.Algorithm.accepted_only_in_range[{stop}]", z3.And(inr("generations", 1, 100000), inr("population_size", 1, 100000), inr("variant", 1, 18), inr("variant_adptv", 1, 2),
+                                                                                   z3.Real("given_cr") >= 0, z3.Real("given_cr") <= 1, z3.Real("given_m") >= 0, z3.Real("given_m") <= 1), {}, ALGO_REPLAY)
+            if stop == "absent":
+                sv = p.st.cell(p.ex.self_ref).fields.get("_stopval")
+                u.oblige(p, "ctor.Algorithm.absent_stopval_is_minus_infinity", bool(isinstance(sv, VFloat) and is_conc(sv.v) and sv.v == float("-inf")), {"stored": repr(sv)}, ALGO_REPLAY)
+        u.cover(f"ctor.Algorithm.cover[{stop}]", ps, lambda p: p.kind == "return")
